@@ -1,17 +1,25 @@
 import LunaVerif.Core.Proto
 import LunaVerif.Model.Device.FullProto
 import LunaVerif.Model.Device.DevCyc
+import LunaVerif.Model.Device.SlotContract
 /-
 Line protocol of the cycle-level device composition (`DevCyc`, sub-model 2 of lean/Driver/C20.lean).
 
-config line : `# 2 filterByAddress clk12 fsOnly speed T L`
+config line : `# 2 filterByAddress clk12 fsOnly speed T L  (kind epNum)*`     one pair per `EndpointInterface` on the
+              endpoint multiplexer, in `add_interface` order; kind 0 = control endpoint (the "rest slot" of
+              Lemmas/C20Device.lean: it may answer every pulse not addressed to another slot), 1 = IN endpoint
+              (USBStreamInEndpoint, USBSignalInEndpoint: pulse = endpoint == n & is_in & ready_for_response),
+              2 = USBStreamOutEndpoint (pulse = endpoint == n & (is_out & rx_ready_for_response | is_ping & ready_for_response))
 input line  : rxActive rxValid rxData txReady address  ack nak stall  sValid sFirst sLast sPayload pidToggle
               timerStart crcStart  rsValid rsData
+              then per slot: hs (= ack|nak|stall of that interface) txValid txFirst txLast timerStart
 output line : txValid txData hsValid genValid
               tokPid tokAddress tokEndpoint tokFrame newToken newFrame tokReadyForResponse
               rxStreamValid rxStreamNext rxPayload packetComplete crcMismatch rxReadyForResponse packetId activePid crc
               txAllowed streamReady
               hostOk envOk win            (the assumptions of the theorems evaluated on this cycle; win: 0 closed, 1 resp, 2+k wait k)
+              then per slot: ok phase     (the SLOT CONTRACT `C20Ctr.cstep` evaluated on the interface's sampled outputs:
+                                           ok = the drive of this cycle is allowed; phase 0 idle, 1 sending, 2+j armed j)
 Core Lean only.
 -/
 namespace LunaVerif.DevCyc.Proto
@@ -22,11 +30,18 @@ structure CState where
   par : Params
   s   : State
   g   : Ghost
+  slots : List (Nat × Nat) := []        -- (kind, endpoint number) per interface
+  phs   : List C20Ctr.Ph := []
+
+def pairs : List Nat → List (Nat × Nat)
+  | k :: n :: rest => (k, n) :: pairs rest
+  | _ => []
 
 def cInit (xs : List Nat) : CState :=
   { cfg := { tok := { filterByAddress := n2b (fld xs 0), timer := { clk12 := n2b (fld xs 1), fsOnly := n2b (fld xs 2) } },
              speed := fld xs 3 },
-    par := { T := fld xs 4, L := fld xs 5 }, s := init, g := ghostInit }
+    par := { T := fld xs 4, L := fld xs 5 }, s := init, g := ghostInit,
+    slots := pairs (xs.drop 6), phs := (pairs (xs.drop 6)).map (fun _ => .idle) }
 
 def parseIn (r : List Nat) : In :=
   { rx := ⟨n2b (fld r 0), n2b (fld r 1), fld r 2⟩, txReady := n2b (fld r 3), address := fld r 4,
@@ -40,17 +55,42 @@ def winCode : Win → Nat
   | .resp => 1
   | .wait k => 2 + k
 
+/-- The pulse addressed to an IN / OUT slot, as the endpoint decodes it from the tokenizer and receiver outputs. -/
+def slotPulse (o : Out) (kind n : Nat) : Bool :=
+  if kind == 1 then o.tok.regs.endpoint == n && o.tok.isIn && o.tok.readyForResponse
+  else if kind == 2 then
+    o.tok.regs.endpoint == n && ((o.tok.isOut && o.rxo.ready) || (o.tok.isPing && o.tok.readyForResponse))
+  else false
+
+def phCode : C20Ctr.Ph → Nat
+  | .idle => 0
+  | .sending => 1
+  | .armed j => 2 + j
+
+/-- The slots' share of a row: per slot five bits after the 17 packet-layer inputs. -/
+def slotSig (row : List Nat) (k : Nat) : C20Ctr.Sig :=
+  { hs := n2b (fld row (17 + 5 * k)), valid := n2b (fld row (18 + 5 * k)), first := n2b (fld row (19 + 5 * k)),
+    last := n2b (fld row (20 + 5 * k)), tstart := n2b (fld row (21 + 5 * k)) }
+
+def slotsStep (d : CState) (o : Out) (row : List Nat) : List C20Ctr.Ph × List Nat :=
+  let others := d.slots.any (fun kn => slotPulse o kn.1 kn.2)
+  let rs := (List.zip (List.range d.slots.length) (List.zip d.slots d.phs)).map (fun (k, kn, ph) =>
+    let pul := if kn.1 == 0 then pulse o && !others else slotPulse o kn.1 kn.2
+    C20Ctr.cstep d.par.L ph pul o.streamReady d.g.a1 d.g.a2 (slotSig row k))
+  (rs.map (·.2), (rs.map (fun r => [b2n r.1, phCode r.2])).flatten)
+
 def cStep (d : CState) (row : List Nat) : CState × List Nat :=
   let i := parseIn row
   let (s', o) := step d.cfg d.s i
   let t := o.tok.regs
-  ({ d with s := s', g := ghostNext d.par d.g d.s i o },
+  let sl := slotsStep d o row
+  ({ d with s := s', g := ghostNext d.par d.g d.s i o, phs := sl.1 },
    [b2n o.txValid, o.txData, b2n o.hsValid, b2n o.genValid,
     t.pid, t.address, t.endpoint, t.frame, b2n t.newToken, b2n t.newFrame, b2n o.tok.readyForResponse,
     b2n o.rxo.streamValid, b2n o.rxo.streamNext, o.rxo.payload, b2n o.rxo.packetComplete, b2n o.rxo.crcMismatch,
     b2n o.rxo.ready, o.rxo.packetId, o.rxo.activePid, o.rxo.crcOut,
     b2n o.txAllowed, b2n o.streamReady,
-    b2n (hostOk d.g i), b2n (envOk d.g d.s i o), winCode d.g.win])
+    b2n (hostOk d.g i), b2n (envOk d.g d.s i o), winCode d.g.win] ++ sl.2)
 
 /-- Driver state of C20: the two older sub-models (multiplexer, event-level full device) or the cycle composition. -/
 inductive D
